@@ -508,11 +508,14 @@ type FuncContract struct {
 	Line        int
 	NoOverflow  []string
 	Domain      []Clause
+	Reveal      bool         // expand opaque spec functions of other packages in this function's VC
+	Findings    []Clause     // known-finding regions (Case = finding name)
 	Allocs      []*STypeExpr // for trusted / interface contracts: kinds the callee may allocate
 	Effects     []string
 }
 
 type SpecFunc struct {
+	Opaque bool
 	Name   string
 	Params []SParam
 	Ret    *STypeExpr
@@ -544,6 +547,7 @@ func ParseContractFile(src, path string) (cf *ContractFile, err error) {
 	type ll struct {
 		s    string
 		line int
+		top  bool // written at top level ("//@ kw", a single space)
 	}
 	var lines []ll
 	raw := strings.Split(src, "\n")
@@ -552,7 +556,9 @@ func ParseContractFile(src, path string) (cf *ContractFile, err error) {
 		if !strings.HasPrefix(t, "//@") {
 			continue
 		}
-		s := strings.TrimSpace(strings.TrimPrefix(t, "//@"))
+		rawAfter := strings.TrimPrefix(t, "//@")
+		top := len(rawAfter) > 1 && rawAfter[0] == ' ' && rawAfter[1] != ' '
+		s := strings.TrimSpace(rawAfter)
 		start := i + 1
 		for strings.HasSuffix(s, "\\") && i+1 < len(raw) {
 			s = strings.TrimSuffix(s, "\\")
@@ -564,7 +570,7 @@ func ParseContractFile(src, path string) (cf *ContractFile, err error) {
 		if s == "" || strings.HasPrefix(s, "--") {
 			continue
 		}
-		lines = append(lines, ll{s, start})
+		lines = append(lines, ll{s, start, top})
 	}
 	var cur *FuncContract
 	curCase := ""
@@ -588,8 +594,9 @@ func ParseContractFile(src, path string) (cf *ContractFile, err error) {
 		kw, rest := splitKw(l.s)
 		switch kw {
 		case "mode":
-			if cur == nil {
+			if cur == nil || l.top {
 				cf.Mode = rest
+				cur = nil
 			} else {
 				cur.Mode = rest
 			}
@@ -601,9 +608,14 @@ func ParseContractFile(src, path string) (cf *ContractFile, err error) {
 			}
 			cf.Funcs[rest] = cur
 			cf.Order = append(cf.Order, rest)
-		case "spec":
-			// spec func name(a T, b U) R = expr
-			sf := parseSpecFunc(rest, path, l.line)
+		case "spec", "opaque":
+			// [opaque] spec func name(a T, b U) R = expr
+			r2 := rest
+			if kw == "opaque" {
+				_, r2 = splitKw(rest)
+			}
+			sf := parseSpecFunc(r2, path, l.line)
+			sf.Opaque = kw == "opaque"
 			cf.SpecFuncs[sf.Name] = sf
 			cur = nil
 		case "lemma":
@@ -647,8 +659,19 @@ func ParseContractFile(src, path string) (cf *ContractFile, err error) {
 			case "domain":
 				cur.Domain = append(cur.Domain, mk(rest, l.line))
 				cf.Assumptions = append(cf.Assumptions, fmt.Sprintf("domain %s: %s", cur.Key, rest))
+			case "finding":
+				// finding NAME: regionExpr
+				idx := strings.Index(rest, ":")
+				if idx < 0 {
+					panic(fmt.Errorf("%s:%d: finding syntax: finding NAME: region", path, l.line))
+				}
+				c := mk(strings.TrimSpace(rest[idx+1:]), l.line)
+				c.Case = strings.TrimSpace(rest[:idx])
+				cur.Findings = append(cur.Findings, c)
 			case "case":
 				curCase = rest
+			case "reveal":
+				cur.Reveal = true
 			case "pure":
 				cur.Pure = true
 			case "trusted":
@@ -673,6 +696,15 @@ func ParseContractFile(src, path string) (cf *ContractFile, err error) {
 					break
 				}
 				for _, part := range splitTop(rest) {
+					if strings.HasPrefix(part, "all ") {
+						te, perr := ParseTypeExpr(strings.TrimSpace(part[4:]))
+						if perr != nil {
+							panic(fmt.Errorf("%s:%d: %v", path, l.line, perr))
+						}
+						cur.Assigns = append(cur.Assigns, &SConv{Type: te})
+						cur.AssignsText = append(cur.AssignsText, strings.TrimSpace(part))
+						continue
+					}
 					e, perr := ParseSpecExpr(strings.ReplaceAll(part, "[*]", "[0]"))
 					if perr != nil {
 						panic(fmt.Errorf("%s:%d: %v", path, l.line, perr))
